@@ -5,10 +5,16 @@ use crate::rng::Rng;
 use crate::world::{merge, World, NREG};
 use serde_json::{json, Value};
 
+/// iterator adaptors for producers fed from iterators (see world::with_loose_iter)
+pub const ADAPTORS: [&str; 7] = ["filter", "filter_map", "flat_map", "take_while", "skip_while", "chain", "from_fn"];
+
 pub struct Drv<A: Cx> {
     pub w: World<A>,
     pub rng: Rng,
     pub out: Vec<String>,
+    /// when set, every line is written (and flushed) as it is produced and the call about to be
+    /// made is recorded in `<path>.intent`, so that a crash of the process is attributable
+    pub sink: Option<(std::io::BufWriter<std::fs::File>, String)>,
 }
 
 pub fn step(f: &str, a: usize, b: usize) -> Value {
@@ -25,12 +31,29 @@ pub fn sl(r: usize, a: usize, b: usize) -> Value {
 
 impl<A: Cx> Drv<A> {
     pub fn new(rng: Rng) -> Self {
-        Drv { w: World::new(), rng, out: Vec::new() }
+        Drv { w: World::new(), rng, out: Vec::new(), sink: None }
+    }
+
+    pub fn stream_to(&mut self, path: &str) {
+        let f = std::fs::File::create(path).expect("harness: cannot create the trace file");
+        self.sink = Some((std::io::BufWriter::new(f), format!("{path}.intent")));
+    }
+
+    pub fn log_line(&mut self, line: String) {
+        use std::io::Write;
+        if let Some((w, _)) = self.sink.as_mut() {
+            writeln!(w, "{line}").unwrap();
+            w.flush().unwrap();
+        }
+        self.out.push(line);
     }
 
     pub fn emit(&mut self, op: Value) -> Value {
+        if let Some((_, intent)) = self.sink.as_ref() {
+            let _ = std::fs::write(intent, op.to_string());
+        }
         let obs = self.w.exec(&op);
-        self.out.push(merge(&op, obs.clone()).to_string());
+        self.log_line(merge(&op, obs.clone()).to_string());
         obs
     }
 
